@@ -63,7 +63,10 @@ def build_case(r, art, rng, max_macs):
         n = int(np.prod(t["shape"])) if t["shape"] else 1
         lo, hi = refnet.QRANGE[t["type"]]
         mode = rng.choice(["rand", "rand", "extreme", "narrow"])
-        if mode == "rand":
+        fixed = (r["job"].get("inputs") or {}).get(str(len(inputs)))
+        if fixed is not None:     # corpus networks kept from findings name the inputs that exposed them
+            data = np.array((fixed * (n // len(fixed) + 1))[:n], dtype=np.int64)
+        elif mode == "rand":
             data = np.array([rng.randint(lo, hi) for _ in range(n)], dtype=np.int64)
         elif mode == "extreme":
             data = np.array([rng.choice([lo, hi, lo + 1, hi - 1, 0]) for _ in range(n)], dtype=np.int64)
